@@ -14,6 +14,9 @@ ALLOWED_EXT = (
     "Iterator for std::ops::Range<A>>::next",
     # comparison through references: delegates to the element's PartialEq (a cone member if it is local)
     "std::cmp::PartialEq<&B> for &A>::eq", "std::cmp::PartialEq<&B> for &A>::ne",
+    # walking an array: sub-slice, its iterator, the enumerating adaptor (pure; the slice bounds are R14.2's)
+    "std::array::<impl std::ops::Index<I> for [T; N]>::index", "core::slice::<impl [T]>::iter", "std::iter::Iterator::enumerate",
+    "<std::iter::Enumerate<I> as std::iter::Iterator>::next", "<std::slice::Iter<'a, T> as std::iter::Iterator>::next",
 )
 # total, pure functions of their (primitive integer) arguments: no state, no clock, no panic
 PURE_INT_FNS = ("std::cmp::Ord::min", "std::cmp::Ord::max", "core::cmp::Ord::min", "core::cmp::Ord::max",
@@ -76,7 +79,7 @@ def r14_1(ctx):
     for bb, t in b.iter_calls():
         for a in t["args"]:
             al = operand_alias(b, a)
-            if al and al[0] == bp[0] and not (callee_of(t) or "").endswith("PartialEq>::eq"):
+            if al and al[0] == bp[0] and not _ext_call_ok(t):
                 ctx.ob("get_evaluation:board-escapes:%s" % (callee_of(t) or "?").split("::")[-1], False, b.where(b.term_loc(bb)),
                        "the board is passed on to %s" % callee_of(t))
     for fn in cone:
@@ -100,18 +103,24 @@ def r14_1(ctx):
 
 
 class Fold:
-    """Recognise get_evaluation as a fold over the squares of two nested constant `Range` loops.
+    """Recognise get_evaluation as a fold over the squares visited by two nested counting loops.
 
     The recognition is semantic: the loop nest is cut into its acyclic segments (wa/loopseg.py) and
     every segment is evaluated symbolically.  What is established (or the shape is rejected):
-      * the nest iterates exactly range(outer) x range(inner): each loop is left only through the
-        `None` edge of its own `Range::next`, and the iterators are touched by nothing else;
+      * the nest visits exactly range(outer) x range(inner): each loop runs one counter over a constant
+        half-open range (`for x in lo..hi`, `while c < hi {..; c += 1}`, or a walk over a constant
+        sub-slice `a[lo..hi].iter()` with or without `enumerate()`), is left only through its own
+        header test, and its counter / iterator is touched by nothing else;
       * the only state that survives an iteration is the loop counters and a set of integer
-        *accumulators*; an accumulator changes only in the innermost body and there by
-        `acc' = acc + c` where the contribution c reads nothing but the square being visited;
+        *accumulators*, which start at 0; an accumulator changes only in the innermost body and
+        there by `acc' = acc + c` (c may be negative: a signed running score) where the contribution
+        c reads nothing but the square being visited; no normal return bypasses the nest;
       * every contribution is made under exactly the decisions {square is Full, colour of its piece}:
-        any other condition on such a path (one that reads a running total, the row, ...) is rejected;
+        any other condition on such a path (one that reads a running total, the row, the kind ...)
+        is rejected;
       * per colour trace there is exactly one contributing path.
+    All expressions are normalised to the board coordinates ('item', 0|1) of the square visited, so
+    `row - 2` in an index loop and `rank` of an enumerated sub-slice walk are the same index.
     How the source spells this (if-let or match+continue, `acc += e` or via temporaries, a helper
     returning a tuple, an index computed by a `match` on the colour and passed on) is irrelevant."""
 
@@ -139,19 +148,22 @@ class Fold:
         self._contributions()
 
     # -- segments ------------------------------------------------------------------------------------
+    NEXT_FNS = ("Range<A>>::next", "<std::iter::Enumerate<I> as std::iter::Iterator>::next",
+                "<std::slice::Iter<'a, T> as std::iter::Iterator>::next")
+
     def _header_test(self, cond):
         """The test a loop header makes, read off the first branch decision of a segment:
-        ('range', iterator local, stays) for `match Range::next(&mut it)`, or
-        ('while', counter local, bound, stays) for `c < K` (also K > c, c <= K-1, c != K is not accepted);
-        `stays` tells whether this segment took the edge into the loop body.  None if unrecognised."""
+        ('iter', iterator local, stays) for `match it.next()` on a Range, a slice iterator or an
+        enumerated slice iterator, or ('while', counter local, bound, stays) for `c < K` (also K > c,
+        c <= K-1); `stays` tells whether this segment took the edge into the loop body."""
         d = strip_refs(cond[0])
         if d[0] == "discr":
             e = strip_refs(d[1])
-            if e[0] == "call" and e[1].endswith("Range<A>>::next") and len(e[2]) == 1:
+            if e[0] == "call" and any(e[1].endswith(n) for n in self.NEXT_FNS) and len(e[2]) == 1:
                 it = loopseg.undef_locals(strip_refs(e[2][0]))
                 some = loopseg.variants_on_path([cond], lambda x: True, {0: "None", 1: "Some"})
                 if strip_refs(e[2][0])[0] == "opaque" and len(it) == 1 and len(some) == 1:
-                    return ("range", next(iter(it)), some == {"Some"})
+                    return ("iter", next(iter(it)), some == {"Some"})
             return None
         tr = cond_truth(cond)
         if d[0] == "bin" and d[1] in ("Lt", "Le", "Gt", "Ge") and tr is not None:
@@ -176,7 +188,7 @@ class Fold:
                 env, conds = loopseg.eval_segment(b, blocks, end)
                 ht = self._header_test(conds[0]) if conds else None
                 if ht is None:
-                    raise ShapeNotRecognised("get_evaluation: the loop headed by bb%d does not start with a `Range::next` or `counter < bound` test" % start)
+                    raise ShapeNotRecognised("get_evaluation: the loop headed by bb%d does not start with an iterator `next()` or `counter < bound` test" % start)
                 self.tests[start].add(ht[:-1])
                 if not ht[-1]:
                     # the only way out of a loop
@@ -196,17 +208,72 @@ class Fold:
             raise ShapeNotRecognised("get_evaluation: loop nest has no exit or no body")
 
     # -- the two loop counters ---------------------------------------------------------------------
+    def _decode_seq(self, e):
+        """The sequence an iterator value walks, as (lo, hi, payload): the k-th call of next() for
+        k in lo..hi returns Some(payload(k)).
+          lo..hi                      -> k
+          base[lo..hi].iter()         -> &base[k]          (also `&base[lo..hi]` used as an iterator)
+          seq.enumerate()             -> (k - lo, payload_seq(k))
+          into_iter(iterator)         -> the iterator"""
+        from wa.expr import mk_bin, mk_ref, mk_deref
+        e0 = e
+        if e[0] == "call" and e[1].endswith("IntoIterator>::into_iter") and len(e[2]) == 1:
+            inner = e[2][0]
+            if inner[0] == "call" and inner[1].endswith("::index"):
+                e = ("call", "core::slice::<impl [T]>::iter", (inner,), None)     # `for x in &a[lo..hi]`
+            else:
+                return self._decode_seq(inner)
+        if e[0] == "agg" and e[1].endswith("ops::Range") and len(e[3]) == 2 and all(z[0] == "const" and isinstance(z[1], int) and not isinstance(z[1], bool) for z in e[3]):
+            return e[3][0][1], e[3][1][1], (lambda k: k)
+        if e[0] == "call" and e[1] in ("std::iter::Iterator::enumerate", "core::iter::Iterator::enumerate") and len(e[2]) == 1:
+            s = self._decode_seq(e[2][0])
+            if s is None:
+                return None
+            lo, hi, pay = s
+            return lo, hi, (lambda k: ("agg", "tuple", None, (mk_bin("Sub", k, ("const", lo)), pay(k))))
+        if e[0] == "call" and e[1] == "core::slice::<impl [T]>::iter" and len(e[2]) == 1:
+            x = e[2][0]
+            if x[0] == "call" and (x[1].endswith("Index<I> for [T; N]>::index") or x[1].endswith("Index<I> for [T]>::index")) and len(x[2]) == 2:
+                base, rng = x[2]
+                if rng[0] == "agg" and rng[1].endswith("ops::Range") and all(z[0] == "const" and isinstance(z[1], int) for z in rng[3]):
+                    return rng[3][0][1], rng[3][1][1], (lambda k: mk_ref(("index", mk_deref(base), k)))
+        return None
+
     def _counters(self):
-        """Each loop runs its counter over a constant half-open range, one step per iteration:
-          `for x in lo..hi`      the header test is `Range::next(&mut it)`; `it` is initialised once,
-                                 outside the loop, from a constant Range and borrowed by nothing else;
+        """Each loop runs a counter k over a constant half-open range lo..hi, one step per iteration:
+          `for x in <iterator>`     the header test is `it.next()`; `it` is initialised once, outside
+                                    the loop, from a sequence _decode_seq understands, and is borrowed
+                                    by nothing but that one call;
           `while c < hi {.. c += 1}`  every definition of c outside the loop is the constant lo, every
-                                 segment that closes the loop leaves c + 1 in c, nothing else writes c."""
+                                    segment that closes the loop leaves c + 1 in c, nothing else writes c.
+        self.norm maps what the loop body sees of the counter (the payload of next(), locals computed
+        from it once per row, the while counter) to expressions over ('item', 0|1)."""
         b, ex = self.b, self.ex
         rd = b.reaching()
-        self.counter = {}     # header -> ('range', iterator local) | ('while', counter local)
+        self.counter = {}     # header -> ('iter', iterator local) | ('while', counter local)
         self.ranges = {}      # 0 (outer) | 1 (inner) -> (lo, hi)
-        self.items = {}       # segment-language expression of a counter value -> 0 | 1
+        self.norm = {}
+        # loop-invariant values read in the nest or after it (a copy of the `board` parameter made
+        # for an inlined helper): resolve them by value numbering
+        written = set()
+        reads = set()
+        for segs in self.segs.values():
+            for blocks, end, env, conds in segs:
+                written |= set(env)
+                for v in env.values():
+                    reads |= loopseg.undef_locals(v)
+                for c in conds:
+                    reads |= loopseg.undef_locals(c[0])
+        self.invariant = {}
+        for l in range(len(b.locals)):
+            if l in written:
+                continue
+            sites = rd.all_sites(l)
+            if len(sites) == 1 and sites[0][1] == "whole" and sites[0][0][0] not in self.loop and b.node_dominates(sites[0][0][0], self.outer):
+                v = ex.local(l, (self.outer, 0))
+                if strip_refs(v)[0] in ("arg", "const"):
+                    self.invariant[loopseg.undef(l)] = v
+        self.norm.update(self.invariant)
         for idx, h in enumerate((self.outer, self.inner)):
             if len(self.tests[h]) != 1:
                 raise ShapeNotRecognised("get_evaluation: the loop headed by bb%d is tested in more than one way" % h)
@@ -216,21 +283,44 @@ class Fold:
             sites = rd.all_sites(l)
             outside = [(loc, k) for loc, k in sites if loc[0] not in self.loops[h]]
             inside = [(loc, k) for loc, k in sites if loc[0] in self.loops[h]]
-            if kind == "range":
+            if kind == "iter":
                 if len(outside) != 1 or outside[0][1] != "whole" or len(inside) != 1 or inside[0][1] != "borrow":
                     raise ShapeNotRecognised("get_evaluation: loop iterator `%s` is written or borrowed more than once" % b.lname(l))
-                wl = outside[0][0]
-                st = b.stmts(wl[0])
-                e0 = ex.rvalue(st[wl[1]]["rv"], wl) if wl[1] < len(st) else ex.call_expr(b.term(wl[0]), wl)
-                while e0[0] == "call" and e0[1].endswith("IntoIterator>::into_iter") and len(e0[2]) == 1:
-                    e0 = e0[2][0]      # identity on an iterator
-                if not (e0[0] == "agg" and e0[1].endswith("ops::Range") and len(e0[3]) == 2 and all(z[0] == "const" and isinstance(z[1], int) for z in e0[3])):
-                    raise ShapeNotRecognised("get_evaluation: loop range `%s` is not a constant Range" % show_expr(e0, b)[:50])
-                self.ranges[idx] = (e0[3][0][1], e0[3][1][1])
-                nexts = [bb for bb, t in b.iter_calls() if bb in self.loops[h] and (callee_of(t) or "").endswith("Range<A>>::next")
-                         and (operand_alias(b, t["args"][0]) or (None,))[0] == l]
+                nexts = [bb for bb, t in b.iter_calls() if bb in self.loops[h] and t["args"] and (operand_alias(b, t["args"][0]) or (None,))[0] == l]
                 if len(nexts) != 1:
-                    raise ShapeNotRecognised("get_evaluation: `%s` is advanced %d times per iteration" % (b.lname(l), len(nexts)))
+                    raise ShapeNotRecognised("get_evaluation: `%s` is used %d times per iteration" % (b.lname(l), len(nexts)))
+                if h == self.outer:
+                    wl = outside[0][0]
+                    st = b.stmts(wl[0])
+                    e0 = ex.rvalue(st[wl[1]]["rv"], wl) if wl[1] < len(st) else ex.call_expr(b.term(wl[0]), wl)
+                    e0 = loopseg.strip_call_locs(e0)
+                else:
+                    vals = {env.get(l) for blocks, end, env, conds in self.segs["A"]}
+                    if len(vals) != 1 or None in vals:
+                        raise ShapeNotRecognised("get_evaluation: inner loop iterator `%s` is not set up once per row" % b.lname(l))
+                    e0 = loopseg.subst_simplify(next(iter(vals)), self.norm)
+                seq = self._decode_seq(e0)
+                if seq is None or loopseg.undef_locals(e0):
+                    raise ShapeNotRecognised("get_evaluation: loop iterator `%s` = `%s` is not a constant range or a constant sub-slice walk" % (b.lname(l), show_expr(e0, b)[:70]))
+                lo, hi, pay = seq
+                self.ranges[idx] = (lo, hi)
+                segs = self.segs["A"] if h == self.outer else self.segs["B"]
+                for blocks, end, env, conds in segs:
+                    nx = strip_refs(strip_refs(conds[0][0])[1])
+                    self.norm[("field", ("downcast", nx, "Some"), "0")] = pay(("item", idx))
+                if h == self.outer:
+                    # what a row computes from its counter before the inner loop starts (`row`, `rank`,
+                    # the row slice, the inner iterator) is a function of the counter
+                    seen = {}
+                    for blocks, end, env, conds in self.segs["A"]:
+                        for x, v in env.items():
+                            seen.setdefault(x, set()).add(v)
+                    inner_written = {x for kk in ("B", "C") for blocks, end, env, conds in self.segs[kk] for x in env}
+                    for x, vs in seen.items():
+                        if len(vs) == 1 and x not in inner_written and all(x in env for blocks, end, env, conds in self.segs["A"]):
+                            v = loopseg.subst_simplify(next(iter(vs)), self.norm)
+                            if not loopseg.undef_locals(v):
+                                self.norm[loopseg.undef(x)] = v
             else:
                 los = set()
                 for loc, k in outside:
@@ -255,19 +345,14 @@ class Fold:
                 if h == self.inner and any(l not in env for blocks, end, env, conds in self.segs["A"]):
                     raise ShapeNotRecognised("get_evaluation: inner loop counter `%s` is not restarted for every row" % b.lname(l))
                 self.ranges[idx] = (next(iter(los)), test[2])
-                self.items[me] = idx
-        iters = {l for k, l in self.counter.values() if k == "range"}
+                self.norm[me] = ("item", idx)
+        iters = {l for k, l in self.counter.values() if k == "iter"}
         # nothing in the nest is written behind the back of the segment evaluation
         for l, loc, kind in loopseg.indirect_writes(b, self.loop):
             root = alias_of(b, l)[0]
             if root not in iters:
                 raise ShapeNotRecognised("get_evaluation: `%s` is written through a projection or a borrow at %s; the fold is not recognised" % (
                     b.lname(root), b.where(loc)))
-
-    def _is_item_of(self, v, it):
-        """v == (Range::next(&mut it) as Some).0 in segment language."""
-        return (v[0] == "field" and v[2] == "0" and v[1][0] == "downcast" and v[1][2] == "Some" and v[1][1][0] == "call"
-                and v[1][1][1].endswith("Range<A>>::next") and len(v[1][1][2]) == 1 and strip_refs(v[1][1][2][0]) == loopseg.undef(it))
 
     # -- what survives an iteration -----------------------------------------------------------------
     def _state(self):
@@ -292,47 +377,30 @@ class Fold:
                 reads |= loopseg.undef_locals(env[0])
             for c in conds:
                 reads |= loopseg.undef_locals(c[0])
-        state = {l for l in assigned if l in reads}
-        # values fixed before the loop nest and read inside it or after it (a copy of the `board`
-        # parameter handed to an inlined helper, a named constant): resolve them by value numbering
         rd = b.reaching()
-        self.invariant = {}
-        for l in sorted(reads - set(assigned)):
-            sites = rd.all_sites(l)
-            if len(sites) == 1 and sites[0][1] == "whole" and sites[0][0][0] not in self.loop and b.node_dominates(sites[0][0][0], self.outer):
-                v = self.ex.local(l, (self.outer, 0))
-                if strip_refs(v)[0] in ("arg", "const"):
-                    self.invariant[loopseg.undef(l)] = v
         counters = {l for k, l in self.counter.values()}
         self.accs = []
-        for l in sorted(state):
-            if l in counters:
-                continue       # checked in _counters
-            vals = {env[l] for blocks, end, env, conds in self.segs["A"] if l in env}
-            if assigned[l] == {"A"} and len(vals) == 1 and self.counter[self.outer][0] == "range" and self._is_item_of(next(iter(vals)), self.counter[self.outer][1]):
-                self.items[loopseg.undef(l)] = 0       # `for row in ..`: the payload of the outer next()
-                continue
+        for l in sorted(l for l in assigned if l in reads):
+            if l in counters or loopseg.undef(l) in self.norm:
+                continue       # a loop counter or a per-row function of it (checked in _counters)
             if assigned[l] != {"B"} or b.local_ty(l) not in ACC_TYPES:
                 raise ShapeNotRecognised("get_evaluation: `%s` carries a value from one iteration to the next but is neither a loop counter nor an accumulator updated once per square" % b.lname(l))
             self.accs.append(l)
-        # an accumulator starts at 0 and is written nowhere but in the loop body
+        # an accumulator starts at 0 and is written nowhere but in the loop body; what the code after
+        # the nest does with it (`mg = -mg`) is part of the tail, which is evaluated path by path
         for l in self.accs:
             for loc, kind in rd.all_sites(l):
                 if loc[0] in self.loop:
                     continue
                 st = b.stmts(loc[0])
-                if not (kind == "whole" and loc[1] < len(st) and self.ex.rvalue(st[loc[1]]["rv"], loc) == ("const", 0) and b.node_dominates(loc[0], self.outer)):
+                init0 = (loc[1] < len(st) and self.ex.rvalue(st[loc[1]]["rv"], loc) == ("const", 0) and b.node_dominates(loc[0], self.outer)
+                         and not b.node_dominates(self.exit, loc[0]))
+                if not (kind == "whole" and (init0 or b.node_dominates(self.exit, loc[0]))):
                     raise ShapeNotRecognised("accumulator `%s` not initialised to 0, or written outside the loop nest (%s)" % (b.lname(l), b.where(loc)))
         # and the fold is not bypassed: every normal return comes after the loop nest
         for r in b.return_blocks():
             if not b.node_dominates(self.outer, r):
                 raise ShapeNotRecognised("get_evaluation can return at %s without running the fold over the squares" % b.where(b.term_loc(r)))
-        if self.counter[self.inner][0] == "range":
-            for blocks, end, env, conds in self.segs["B"]:
-                nx = strip_refs(strip_refs(conds[0][0])[1])
-                self.items[("field", ("downcast", nx, "Some"), "0")] = 1
-        self.norm = {k: ("item", v) for k, v in self.items.items()}
-        self.norm.update(self.invariant)
         if self.invariant:
             self.tail = [(loopseg.subst(res, self.invariant) if res is not None else None,
                           [(loopseg.subst(c[0], self.invariant),) + tuple(c[1:]) for c in conds]) for res, conds in self.tail]
@@ -367,7 +435,7 @@ class Fold:
         sq_variants = self.f.enum_variant_by_discr("board::Square")
         paths = []
         for blocks, end, env, conds in self.segs["B"]:
-            nconds = [(loopseg.subst(c[0], self.norm),) + tuple(c[1:]) for c in conds[1:]]
+            nconds = [(loopseg.subst_simplify(c[0], self.norm),) + tuple(c[1:]) for c in conds[1:]]
             # the square this iteration looks at: the subject of every `Square` discriminant test
             holds = set(sq_variants.values())
             rest = []
@@ -404,7 +472,7 @@ class Fold:
             for l in self.accs:
                 if l not in env:
                     continue
-                v = loopseg.subst(env[l], self.norm)
+                v = loopseg.subst_simplify(env[l], self.norm)
                 le = linear(v)
                 me = loopseg.undef(l)
                 if le is None or le[0].get(me) != 1:
@@ -439,6 +507,33 @@ class Fold:
         for c, n in n_contrib.items():
             if n != 1:
                 raise ShapeNotRecognised("get_evaluation: a %s piece is scored on %d paths of the loop body (expected exactly one)" % (c, n))
+
+    def affine_bounds(self):
+        """{assert block: (holds, detail)} for the bounds checks inside the loop nest whose index is
+        an affine expression of the two loop counters: evaluated over the counters' ranges on every
+        segment the check lies on."""
+        out = {}
+        for kind, segs in self.segs.items():
+            for blocks, end, env, conds in segs:
+                for bb, akind, ops in loopseg.segment_asserts(self.b, blocks):
+                    if akind != "bounds" or len(ops) != 2:
+                        continue
+                    ln = strip_refs(loopseg.subst_simplify(ops[0], self.norm))
+                    le = linear(loopseg.subst_simplify(ops[1], self.norm))
+                    ok, detail = False, "index is not affine in the loop counters"
+                    if ln[0] == "const" and le is not None and all(t[0] == "item" for t in le[0]):
+                        lo = hi = le[1]
+                        for t, c in le[0].items():
+                            r = self.ranges[t[1]]
+                            if r[1] <= r[0]:
+                                continue
+                            lo += min(c * r[0], c * (r[1] - 1))
+                            hi += max(c * r[0], c * (r[1] - 1))
+                        ok = 0 <= lo and hi < ln[1]
+                        detail = "index in [%d, %d] over the counter ranges, length %d" % (lo, hi, ln[1])
+                    prev = out.get(bb)
+                    out[bb] = (ok and (prev is None or prev[0]), detail)
+        return out
 
     def _def_site(self, blocks, l):
         b = self.b
@@ -507,6 +602,12 @@ def _classify(f, terms, const):
     return None
 
 
+def _show_terms(p, b):
+    if not p:
+        return "?"
+    return " ".join("%+d*%s" % (c, show_expr(t, b)[:40]) for t, c in sorted(p[0].items(), key=str)) or str(p[1])
+
+
 MIN_FNS = ("std::cmp::Ord::min", "core::cmp::Ord::min", "std::cmp::min", "core::cmp::min")
 
 
@@ -553,75 +654,24 @@ def r14_2(ctx):
     b = fold.b
     ctx.note_fn(GE)
     rank, file_ = fold.square_idx
-    # classify what each accumulator receives on each colour trace
-    by_T = {}        # table fn -> colour -> [(acc, info)]
+    # ---- what each accumulator receives on each colour trace
+    # a *phase* accumulator receives P(kind) whatever the colour; every other accumulator is a *score*
+    # accumulator: it receives +-(table cell + value) terms, one way or another (one accumulator per
+    # (table, colour), or one signed white-relative total per table, ...)
+    contrib = {c: dict(d) for c, d in fold.per_colour.items()}     # colour -> acc -> (terms, const)
     phase = {}       # acc -> colour -> (fn, kinds)
     kinds_used = []
-    for colour, contrib in sorted(fold.per_colour.items()):
-        for l, (terms, const) in sorted(contrib.items()):
-            cls = _classify(f, terms, const)
-            if cls is None:
-                raise ShapeNotRecognised("accumulator addend of `%s` (`%s`) is neither table[row][col] + value nor a phase weight" % (
-                    b.lname(l), " + ".join(show_expr(t, b)[:50] for t in terms) or str(const)))
-            if cls[0] == "table":
-                _, T, V, ri, ci, kinds = cls
-                by_T.setdefault(T, {}).setdefault(colour, []).append((l, {"V": V, "ri": ri, "ci": ci, "kinds": kinds, "where": fold.contrib_where.get(l, b.file)}))
-                kinds_used += list(kinds)
-            else:
-                phase.setdefault(l, {})[colour] = (cls[1], cls[2])
-                kinds_used += list(cls[2])
-    shape_ok = len(by_T) == 2 and all(set(v) == {"White", "Black"} and all(len(x) == 1 for x in v.values()) for v in by_T.values())
-    acc_of = {}
-    for T, d in by_T.items():
-        for colour, lst in d.items():
-            for l, u in lst:
-                if l in acc_of or l in phase:
-                    shape_ok = False     # one accumulator fed from two (table, colour) traces
-                acc_of[l] = (T, colour)
-    ctx.ob("fold:shape", shape_ok, b.file,
-           "evaluation is a fold over %s x %s with accumulators per (phase table, colour): %s" % (
-               fold.ranges[0], fold.ranges[1], {k.split("::")[-1]: sorted(v) for k, v in by_T.items()}),
-           reason="shape-not-recognised")
-    if not shape_ok:
-        return
-    item_name = {("item", rank): "row", ("item", file_): "col"}
-    for T, d in sorted(by_T.items()):
-        (lw, uw), = d["White"]
-        (lb, ub), = d["Black"]
-        short = T.split("::")[-1]
-        same_kind = len(set(uw["kinds"]) | set(ub["kinds"])) == 1
-        ctx.ob("mirror:%s:same-value-function" % short, uw["V"] == ub["V"] and same_kind, ub["where"],
-               "both colours add %s(kind)[..][..] + %s(kind) for the kind of the piece on the square (white: %s, black: %s)" % (short, uw["V"].split("::")[-1], uw["V"].split("::")[-1], ub["V"].split("::")[-1]))
-        lw_r, lb_r = linear(uw["ri"]), linear(ub["ri"])
-        lw_c, lb_c = linear(uw["ci"]), linear(ub["ci"])
-        ok_shape = all(x is not None and len(x[0]) == 1 for x in (lw_r, lb_r, lw_c, lb_c))
-        if not ok_shape:
-            ctx.ob("mirror:%s:index-forms" % short, False, ub["where"], "table indices are not affine in the loop variables", reason="shape-not-recognised")
-            continue
-        (rw, aw), = lw_r[0].items()
-        (rb, ab), = lb_r[0].items()
-        (cw, acw), = lw_c[0].items()
-        (cb, acb), = lb_c[0].items()
-        bw, bb_ = lw_r[1], lb_r[1]
-        same_vars = rw == rb == ("item", rank) and cw == cb == ("item", file_)
-        # black at row r must use what white uses at row FLIP - r:  aw*(FLIP - r) + bw == ab*r + bb
-        mirror = same_vars and ab == -aw and bb_ == aw * FLIP + bw
-        ctx.ob("mirror:%s:row-identity" % short, bool(mirror), ub["where"],
-               "white row index %+d*%s%+d, black row index %+d*%s%+d; the colour mirror maps row r to %d-r, so black must index %+d*row%+d" % (
-                   aw, item_name.get(rw, "?"), bw, ab, item_name.get(rb, "?"), bb_, FLIP, -aw, aw * FLIP + bw))
-        ctx.ob("mirror:%s:column-identity" % short, same_vars and acw == acb and lw_c[1] == lb_c[1], ub["where"],
-               "column index white %+d*%s%+d, black %+d*%s%+d (files are not mirrored)" % (acw, item_name.get(cw, "?"), lw_c[1], acb, item_name.get(cb, "?"), lb_c[1]))
-    # the piece scored is the one on board[row][col]
-    ctx.ob("fold:scores-the-square-it-visits", bool(kinds_used) and all(k == fold.kind_expr for k in kinds_used), b.file,
-           "the kind/colour used come from board[row][col] of the same loop variables")
-    rr, cr = fold.ranges[rank], fold.ranges[file_]
-    ctx.ob("fold:visits-64-squares", rr == (2, 10) and cr == (2, 10), b.file, "rows %s, columns %s" % (rr, cr))
-    # phase accumulator: colour independent
+    for l in fold.accs:
+        cls = {c: _classify(f, *contrib[c][l]) for c in contrib if l in contrib[c]}
+        if cls and all(x is not None and x[0] == "phase" for x in cls.values()):
+            phase[l] = {c: (x[1], x[2]) for c, x in cls.items()}
+            kinds_used += [k for x in cls.values() for k in x[2]]
     for l, d in sorted(phase.items()):
         ctx.ob("phase:%s:colour-independent" % b.lname(l), set(d) == {"White", "Black"} and d["White"] == d["Black"], fold.contrib_where.get(l, b.file),
                "`%s` receives %s on the colour traces; it must be the same for both colours" % (
                    b.lname(l), {c: "%s(kind)" % v[0].split("::")[-1] for c, v in sorted(d.items())}))
     phase_accs = sorted(phase)
+    score_accs = [l for l in fold.accs if l not in phase]
     # ---- tail: side arms and blend (loop-free part after the loop nest)
     bp = fold.bp
     is_side = lambda x: x[0] == "field" and x[2] == "to_move" and strip_refs(x[1]) == ("arg", bp)
@@ -696,7 +746,27 @@ def r14_2(ctx):
             leaves = {x for x in subexprs(c[0]) if x[0] in ("var", "opaque", "arg", "field", "call")}
             ok = all(is_phase_total(x) or (x[0] == "call" and x[1] in MIN_FNS) for x in leaves)
             ctx.ob("blend:condition-colour-free:%s%s" % (side, suffix[key]), ok, b.file, "the tail branches on `%s`" % show_expr(c[0], b)[:60])
-    # antisymmetry: White forms are the negation of Black forms; phase weight identical
+
+    def per_piece(lf, colour):
+        """What a piece of `colour` adds to the phase score with linear form `lf` over the
+        accumulators: sum_l lf[l] * contribution(l, colour), as (terms, const); None if lf is not a
+        combination of score accumulators."""
+        if lf is None or lf[1] != 0 or not lf[0]:
+            return None
+        out, const = {}, 0
+        for t, a in lf[0].items():
+            l = acc_local(t)
+            if l not in score_accs:
+                return None
+            terms, k0 = contrib[colour].get(l, ({}, 0))
+            const += a * k0
+            for x, cx in terms.items():
+                out[x] = out.get(x, 0) + a * cx
+        return {x: cx for x, cx in out.items() if cx != 0}, const
+
+    # antisymmetry: White forms are the negation of Black forms; phase weight identical;
+    # orientation: with White to move each phase score is (white pieces' terms) - (black pieces' terms)
+    tabs = {}       # 'mg' | 'eg' -> (classification of a white piece's term, of a black piece's negated term)
     for key in keys:
         sfx = suffix[key]
         w, k = forms.get(("White", key)), forms.get(("Black", key))
@@ -711,28 +781,66 @@ def r14_2(ctx):
         ok = w[0] is not None and k[0] is not None and neg(w[0]) == k[0] and neg(w[1]) == k[1] and w[2] == k[2] and w[3] == k[3]
         ctx.ob("side-arms:antisymmetric%s" % sfx, bool(ok), b.file,
                "with Black to move both phase scores are the negation of those with White to move, and the phase weight is the same")
-
-        # orientation: mg score on the White trace is (white acc - black acc) of the SAME table, eg likewise
-        def orient(lf):
-            if lf is None or lf[1] != 0 or len(lf[0]) != 2:
-                return None
-            pos = [t for t, c in lf[0].items() if c == 1]
-            negs = [t for t, c in lf[0].items() if c == -1]
-            if len(pos) != 1 or len(negs) != 1:
-                return None
-            a, c = acc_of.get(acc_local(pos[0])), acc_of.get(acc_local(negs[0]))
-            if not a or not c:
-                return None
-            return a, c
-        for nm, lf in (("mg", w[0]), ("eg", w[1])):
-            o = orient(lf)
-            ok = o is not None and o[0][0] == o[1][0] and o[0][1] == "White" and o[1][1] == "Black"
-            ctx.ob("side-arms:%s-orientation%s" % (nm, sfx), bool(ok), b.file,
-                   "with White to move the %s score is (white accumulator - black accumulator) of one table: %s" % (nm, o))
+        for i, nm in enumerate(("mg", "eg")):
+            pw, pb = per_piece(w[i], "White"), per_piece(w[i], "Black")
+            cw = _classify(f, *pw) if pw else None
+            cb = _classify(f, {x: -c for x, c in pb[0].items()}, -pb[1]) if pb else None
+            ok = bool(cw and cb and cw[0] == "table" and cb[0] == "table" and cw[1] == cb[1])
+            if ok:
+                ok = tabs.setdefault(nm, (cw, cb)) == (cw, cb)
+            ctx.ob("side-arms:%s-orientation%s" % (nm, sfx), ok, b.file,
+                   "with White to move the %s score adds table[..][..] + value of one table for every white piece and subtracts it for every black piece: white piece %s, black piece %s" % (
+                       nm, _show_terms(pw, b), _show_terms(pb, b)))
         # phase weight: function of the phase accumulator only
         P = w[2]
         pl = {x for x in subexprs(P) if x[0] in ("var", "opaque", "arg", "field")}
         ctx.ob("blend:phase-weight-colour-free%s" % sfx, all(is_phase_total(t) or t[0] == "const" for t in pl), b.file, "phase weight p = %s" % show_expr(P, b)[:50])
+    # ---- mirror identity per table
+    by_T = {}
+    for nm, (cw, cb) in sorted(tabs.items()):
+        by_T.setdefault(cw[1], []).append({"White": {"V": cw[2], "ri": cw[3], "ci": cw[4], "kinds": cw[5]},
+                                           "Black": {"V": cb[2], "ri": cb[3], "ci": cb[4], "kinds": cb[5]}})
+        kinds_used += list(cw[5]) + list(cb[5])
+    shape_ok = len(tabs) == 2 and len(by_T) == 2
+    ctx.ob("fold:shape", shape_ok, b.file,
+           "evaluation is a fold over %s x %s; per phase score a white piece adds and a black piece subtracts table[..][..] + value of one table: %s" % (
+               fold.ranges[0], fold.ranges[1], {nm: cw[1].split("::")[-1] for nm, (cw, cb) in sorted(tabs.items())}),
+           reason="shape-not-recognised")
+    if not shape_ok:
+        return
+    where = {T: next((fold.contrib_where[l] for l in score_accs if l in contrib.get("Black", {}) and any(
+        strip_refs(x[1][1])[1] == T for x in contrib["Black"][l][0] if x[0] == "index" and x[1][0] == "index" and strip_refs(x[1][1])[0] == "call")), b.file) for T in by_T}
+    item_name = {("item", rank): "row", ("item", file_): "col"}
+    for T, (d,) in sorted(by_T.items()):
+        uw, ub = d["White"], d["Black"]
+        short = T.split("::")[-1]
+        same_kind = len(set(uw["kinds"]) | set(ub["kinds"])) == 1
+        ctx.ob("mirror:%s:same-value-function" % short, uw["V"] == ub["V"] and same_kind, where[T],
+               "both colours add %s(kind)[..][..] + %s(kind) for the kind of the piece on the square (white: %s, black: %s)" % (short, uw["V"].split("::")[-1], uw["V"].split("::")[-1], ub["V"].split("::")[-1]))
+        lw_r, lb_r = linear(uw["ri"]), linear(ub["ri"])
+        lw_c, lb_c = linear(uw["ci"]), linear(ub["ci"])
+        ok_shape = all(x is not None and len(x[0]) == 1 for x in (lw_r, lb_r, lw_c, lb_c))
+        if not ok_shape:
+            ctx.ob("mirror:%s:index-forms" % short, False, where[T], "table indices are not affine in the loop variables", reason="shape-not-recognised")
+            continue
+        (rw, aw), = lw_r[0].items()
+        (rb, ab), = lb_r[0].items()
+        (cw, acw), = lw_c[0].items()
+        (cb, acb), = lb_c[0].items()
+        bw, bb_ = lw_r[1], lb_r[1]
+        same_vars = rw == rb == ("item", rank) and cw == cb == ("item", file_)
+        # black at row r must use what white uses at row FLIP - r:  aw*(FLIP - r) + bw == ab*r + bb
+        mirror = same_vars and ab == -aw and bb_ == aw * FLIP + bw
+        ctx.ob("mirror:%s:row-identity" % short, bool(mirror), where[T],
+               "white row index %+d*%s%+d, black row index %+d*%s%+d; the colour mirror maps row r to %d-r, so black must index %+d*row%+d" % (
+                   aw, item_name.get(rw, "?"), bw, ab, item_name.get(rb, "?"), bb_, FLIP, -aw, aw * FLIP + bw))
+        ctx.ob("mirror:%s:column-identity" % short, same_vars and acw == acb and lw_c[1] == lb_c[1], where[T],
+               "column index white %+d*%s%+d, black %+d*%s%+d (files are not mirrored)" % (acw, item_name.get(cw, "?"), lw_c[1], acb, item_name.get(cb, "?"), lb_c[1]))
+    # the piece scored is the one on board[row][col]
+    ctx.ob("fold:scores-the-square-it-visits", bool(kinds_used) and all(k == fold.kind_expr for k in kinds_used), b.file,
+           "the kind/colour used come from board[row][col] of the same loop variables")
+    rr, cr = fold.ranges[rank], fold.ranges[file_]
+    ctx.ob("fold:visits-64-squares", rr == (2, 10) and cr == (2, 10), b.file, "rows %s, columns %s" % (rr, cr))
     # ---- bound
     T_names = sorted(by_T)
     mate = f.const_value("engine::MATE_SCORE")
@@ -740,7 +848,7 @@ def r14_2(ctx):
     bounds = {}
     for T in T_names:
         tv = _table_values(f, T)
-        V = by_T[T]["White"][0][1]["V"]
+        V = by_T[T][0]["White"]["V"]
         vv = _table_values(f, V)
         hi = max(max(max(r) for r in tv[k]) + vv[k] for k in tv)
         lo = min(min(min(r) for r in tv[k]) + vv[k] for k in tv)
@@ -760,16 +868,56 @@ def r14_2(ctx):
         pv = _table_values(f, d[sorted(d)[0]][0])
         pmax = max(pmax, max(pv.values()) * nsq)
         ctx.ob("phase:bounded", min(pv.values()) >= 0 and pmax < 2**31, b.file, "phase per piece in [%d, %d]" % (min(pv.values()), max(pv.values())))
+    # running totals: |accumulator| <= squares x largest |contribution| it can receive from one piece
+    cache = {}
+
+    def term_bound(t):
+        c = _call_of_kind(f, t[1][1]) if (t[0] == "index" and t[1][0] == "index") else _call_of_kind(f, t)
+        if c is None:
+            return None
+        if c[0] not in cache:
+            tv = _table_values(f, c[0])
+            cache[c[0]] = max(max(abs(x) for r in v for x in r) if isinstance(v, list) else abs(v) for v in tv.values())
+        return cache[c[0]]
+    acc_max = 0
+    for l in score_accs:
+        for colour in contrib:
+            terms, k0 = contrib[colour].get(l, ({}, 0))
+            bs = [term_bound(t) for t in terms]
+            if any(x is None for x in bs):
+                acc_max = None
+                break
+            acc_max = max(acc_max, nsq * (abs(k0) + sum(abs(c) * x for c, x in zip(terms.values(), bs))))
+        if acc_max is None:
+            break
     C = next(iter(forms.values()))[3] if forms else 24
-    worst = 2 * total * max(C, pmax) * 2
-    ctx.ob("overflow:i32", worst < 2**31, b.file, "largest intermediate |2 * %d * %d * 2| = %d < 2^31" % (total, max(C, pmax), worst))
+    big = max(total, acc_max or 0)
+    worst = 2 * big * max(C, pmax) * 2
+    ctx.ob("overflow:i32", acc_max is not None and worst < 2**31, b.file,
+           "running totals <= %s, scores <= %d; largest intermediate |2 * %d * %d * 2| = %d < 2^31" % (acc_max, total, big, max(C, pmax), worst))
     # in-bounds: every bounds assert by intervals
+    # (by intervals, or - inside the loop nest - by evaluating the affine index over the counter ranges)
     iv = Intervals(b)
+    aff = fold.affine_bounds()
     nb = 0
     for bb in b.normal:
         if bb in b.reachable and b.term(bb)["k"] == "assert" and b.term(bb)["assert_kind"] == "bounds":
             nb += 1
             ok, d = iv.assert_holds(bb)
+            if not ok and aff.get(bb, (False,))[0]:
+                ok, d = aff[bb]
             ctx.ob("bounds#%d" % nb, ok, b.where(b.term_loc(bb)), d)
+    # sub-slices taken with a constant range (`board.board[2..10]`) must fit the array they are taken from
+    ex = fold.ex
+    for bb, t in b.iter_calls():
+        c = callee_of(t) or ""
+        tys = t.get("arg_tys") or []
+        if c.endswith("::index") and len(tys) == 2 and tys[1].startswith("std::ops::Range"):
+            import re
+            m = re.search(r"; (\d+)\]$", tys[0])
+            rng = strip_refs(ex.call_args(bb)[1])
+            consts = rng[0] == "agg" and len(rng[3]) == 2 and all(z[0] == "const" and isinstance(z[1], int) for z in rng[3])
+            ok = bool(m) and consts and 0 <= rng[3][0][1] <= rng[3][1][1] <= int(m.group(1))
+            ctx.ob("slice-bounds:%s" % show_expr(rng, b)[:30], ok, b.where(b.term_loc(bb)), "sub-slice %s of `%s`" % (show_expr(rng, b)[:30], tys[0]))
     # vacuity guard only: the board read and at least one table read carry a compiler-inserted check
     ctx.floor("bounds checks in get_evaluation", nb, 2)
